@@ -13,6 +13,8 @@ import (
 	"github.com/esimov/gogu/queue"
 	"github.com/esimov/gogu/stack"
 	"github.com/esimov/gogu/trie"
+
+	"verif/simrt"
 )
 
 // OpCall is one call of a public method: the op name and up to two small integer arguments.
@@ -140,6 +142,11 @@ func (x *heapInst) call(o OpCall) string {
 		return fmt.Sprint(x.h.Peek())
 	case "GetValues":
 		return consumeSlice(x.h.GetValues())
+	case "GetValuesLater":
+		// the caller keeps what was handed back and reads it later, holding no lock
+		v := x.h.GetValues()
+		simrt.Yield()
+		return consumeSlice(v)
 	case "Push":
 		x.h.Push(o.A)
 		return ""
@@ -198,7 +205,7 @@ var heapAdapter = adapter{
 	ncfg:   2,
 	ops: []opDesc{
 		{name: "Size", single: true}, {name: "IsEmpty"}, {name: "Clear", single: true}, {name: "Peek", single: true},
-		{name: "GetValues"}, {name: "Push", nargs: 1, single: true}, {name: "Push2", nargs: 2, bRange: 3}, {name: "Pop", single: true},
+		{name: "GetValues"}, {name: "GetValuesLater"}, {name: "Push", nargs: 1, single: true}, {name: "Push2", nargs: 2, bRange: 3}, {name: "Pop", single: true},
 		{name: "Delete", nargs: 1, single: true}, {name: "Convert", nargs: 1, aRange: 2}, {name: "Merge"}, {name: "MergeInto"}, {name: "Meld"}, {name: "MeldInto"},
 	},
 	build: func(init []int, cfg int) instance {
@@ -303,6 +310,10 @@ func (x *trieInst) call(o OpCall) string {
 	case "Keys":
 		q, err := x.t.Keys()
 		return consumeQueuer(q) + errStr(err)
+	case "KeysLater":
+		q, err := x.t.Keys()
+		simrt.Yield()
+		return consumeQueuer(q) + errStr(err)
 	}
 	panic("harness: unknown trie op " + o.Op)
 }
@@ -328,7 +339,7 @@ var trieAdapter = adapter{
 	ncfg:   2,
 	ops: []opDesc{
 		{name: "Size", single: true}, {name: "Contains", nargs: 1, single: true}, {name: "Put", nargs: 2, single: true},
-		{name: "Get", nargs: 1, single: true}, {name: "LongestPrefix", nargs: 1}, {name: "StartsWith", nargs: 1}, {name: "Keys"},
+		{name: "Get", nargs: 1, single: true}, {name: "LongestPrefix", nargs: 1}, {name: "StartsWith", nargs: 1}, {name: "Keys"}, {name: "KeysLater"},
 	},
 	build: func(init []int, cfg int) instance {
 		var q trie.Queuer[string]
@@ -565,6 +576,14 @@ func (x *cacheInst) call(o OpCall) string {
 		return ""
 	case "List":
 		return consumeCacheMap(x.c.List())
+	case "ListLater":
+		m := x.c.List()
+		simrt.Yield()
+		return consumeCacheMap(m)
+	case "GetLater":
+		it, err := x.c.Get(ck(o.A))
+		simrt.Yield()
+		return fmt.Sprint(it.Val(), errStr(err))
 	case "Count":
 		return fmt.Sprint(x.c.Count())
 	case "MapToCache":
@@ -597,6 +616,7 @@ var cacheAdapter = adapter{
 		{name: "Set", nargs: 2, single: true}, {name: "SetDefault", nargs: 2}, {name: "Get", nargs: 1, single: true},
 		{name: "Update", nargs: 2, single: true}, {name: "Delete", nargs: 1, single: true}, {name: "DeleteExpired"},
 		{name: "Flush"}, {name: "List"}, {name: "Count", single: true}, {name: "MapToCache", nargs: 2}, {name: "IsExpired", nargs: 1},
+		{name: "ListLater"}, {name: "GetLater", nargs: 1},
 	},
 	build: func(init []int, cfg int) instance {
 		exp := time.Duration(cache.NoExpiration)
